@@ -622,9 +622,43 @@ func checkC21(env *kernel.Env) {
 		op := genOp()
 		next := m.clone()
 		wantErr := op.apply(next)
+		// a second clause in the same ALTER TABLE statement, generated against the
+		// table as the first clause leaves it; the statement succeeds or fails as a whole
+		combinable := map[string]bool{"add-column": true, "drop-column": true, "add-index": true, "drop-index": true}
+		if wantErr == "" && combinable[op.kind] && T.Bool(1, 3) {
+			cur := *m
+			*m = *next.clone()
+			op2 := genOp()
+			cur.nextC, next.nextC = m.nextC, m.nextC // names handed out while generating stay taken
+			*m = cur
+			added := ""
+			if f := strings.Fields(op.sql); op.kind == "add-column" && len(f) > 5 {
+				added = f[5]
+			}
+			prefix := "ALTER TABLE " + m.name + " "
+			if combinable[op2.kind] && strings.HasPrefix(op2.sql, prefix) && (added == "" || !strings.Contains(op2.sql+" ", " "+added+" ") && !strings.Contains(op2.sql, "("+added+")")) {
+				probe := next.clone()
+				// an index created in the same statement as a column-moving clause belongs to
+				// the schema-change-with-secondary-index family
+				unsafeIdx := (op.kind == "add-index" || op2.kind == "add-index") && !(c21Safe(op) && c21Safe(op2))
+				if unsafeIdx && env.Avoid("schema-change-with-secondary-index") {
+					// not combined
+				} else if e2 := op2.apply(probe); e2 == "" || !env.Avoid("multi-clause-alter-not-atomic") {
+					if unsafeIdx {
+						env.ClassPrefix = "schema-change-with-index/"
+					}
+					// (known finding: when a later clause fails, the earlier ones are not undone;
+					// most runs only combine clauses that can be carried out)
+					wantErr = op2.apply(next)
+					op = &aOp{kind: op.kind + "+" + op2.kind, sql: op.sql + ", " + strings.TrimPrefix(op2.sql, prefix)}
+					env.Probe("multi-clause-alter")
+				}
+			}
+		}
 		before, beforeDesc, beforeName := m.render(), m.describe(), m.name
 		armed := 0
-		if faults && T.Bool(1, 3) {
+		multi := strings.Contains(op.kind, "+")
+		if faults && T.Bool(1, 3) && !(multi && env.Avoid("multi-clause-alter-not-atomic")) {
 			armed = T.Range(1, 4)
 			w.Arm(armed, "")
 		}
@@ -649,6 +683,9 @@ func checkC21(env *kernel.Env) {
 			}
 		}
 		if r.Err != nil {
+			if multi {
+				env.ClassPrefix = "multi-clause-failed/"
+			}
 			if wantErr != "" {
 				env.Fault("not-representable:" + wantErr)
 			}
@@ -706,6 +743,10 @@ func checkC21(env *kernel.Env) {
 
 // c21Safe: operations that neither move, retype nor rename columns of a table.
 func c21Safe(op *aOp) bool {
+	if i := strings.Index(op.kind, "+"); i > 0 {
+		parts := strings.SplitN(op.sql, ", ", 2)
+		return c21Safe(&aOp{kind: op.kind[:i], sql: parts[0]}) && c21Safe(&aOp{kind: op.kind[i+1:], sql: parts[len(parts)-1]})
+	}
 	switch op.kind {
 	case "add-index", "drop-index", "rename-table":
 		return true
